@@ -1,14 +1,17 @@
 #!/bin/bash
-# Offline setup: third-party helpers (jsonschema for evidence validation, icontract for
-# contract hooks) go into /verif/.deps from the local wheelhouse. Idempotent.
-set -e
+# Offline setup.  The monitors need nothing beyond /venv's interpreter and the standard library.  jsonschema (used only to
+# validate the evidence files the checks write) is installed into /verif/.deps from the local wheelhouse when possible;
+# if that fails the checks still run and skip the validation.  Idempotent.
 cd "$(dirname "$0")"
+mkdir -p .work evidence replays
 if [ ! -f .deps/.ok ]; then
   rm -rf .deps
-  PIP_NO_INDEX=1 /venv/bin/pip install -q --no-index --find-links /opt/veriftools/wheels \
-      --target .deps jsonschema icontract >/dev/null 2>&1 || {
-        echo "setup: offline install of jsonschema/icontract failed" >&2; exit 3; }
-  touch .deps/.ok
+  if PIP_NO_INDEX=1 /venv/bin/pip install -q --no-index --find-links /opt/veriftools/wheels \
+      --target .deps jsonschema >/dev/null 2>&1; then
+    touch .deps/.ok
+  else
+    echo "setup: jsonschema could not be installed offline; evidence files will not be schema-validated" >&2
+    mkdir -p .deps
+  fi
 fi
-mkdir -p .work evidence replays
 exit 0
